@@ -128,9 +128,9 @@ def _e3_plan(prop, tier):
                     "one long-lived process, chains interleaved, drawn options and cache knobs; f^5(x) == f^6(x), no text comes back, a fixed point is never left, and every application equals the same call in a fresh process. "
                     "For the chain batches distinct = (entry point, cache-state class, knob table), non-trivial = the judged application hit a parse-cache entry an earlier operation had touched.",
             "batches": [
-                dict(base, label="pool-converge", n=60 if q else 4000, kwargs={"profile": "converge", "schedules": 2}),
+                dict(base, label="pool-converge", n=48 if q else 4000, kwargs={"profile": "converge", "schedules": 2}),
                 {"engine": "e2_history", "label": "chains-sweep", "n": 96 if q else 344, "indexed": True, "kwargs": {"chains": True}, "timeout": 1200.0},
-                {"engine": "e2_history", "label": "chains", "n": 60 if q else 6000, "kwargs": {"chains": True}, "timeout": 900.0},
+                {"engine": "e2_history", "label": "chains", "n": 96 if q else 6000, "kwargs": {"chains": True}, "timeout": 900.0},
             ],
             "probes": ["converge.follow_up_runs", "converge.files_followed", "chains.checked", "chains.input_changed"],
             "assumptions": ["on trees without import edges between formatted files a file's pass sequence is exactly x, f(x), f(f(x)), ..."],
